@@ -44,6 +44,7 @@ package seq
 
 // Fold combines the elements left to right starting from the monoid's empty element
 //@ func (Foldable) Fold
+//@   loops 1
 //@   requires self.Seq != nil && m != nil
 //@   requires self.Seq.wf(seq)
 //@   ensures left_fold: result == foldm(m, m.Empty(), self.Seq.elems(seq))
